@@ -9,10 +9,12 @@ from ..encode import ChartEnc
 from ..framework import Case
 from ..interp_prop import InterpProp
 
-SHIPPED = ['/repo/docs/examples/elevator/elevator_contract.yaml',
-           '/repo/docs/examples/microwave/microwave.yaml',
-           '/repo/tests/yaml/microwave_with_contracts.yaml',
-           '/repo/docs/examples/elevator/elevator.yaml']
+import os
+REPO = os.environ.get('SISMIC_REPO', '/repo')
+SHIPPED = [REPO + '/docs/examples/elevator/elevator_contract.yaml',
+           REPO + '/docs/examples/microwave/microwave.yaml',
+           REPO + '/tests/yaml/microwave_with_contracts.yaml',
+           REPO + '/docs/examples/elevator/elevator.yaml']
 SHIPPED_EVENTS = {
     'elevator': [('floorSelected', 'floor', range(0, 6))],
     'microwave': [('door_opened',), ('door_closed',), ('item_placed',), ('item_removed',), ('timer_inc',),
